@@ -170,6 +170,20 @@ CLAIMED["C10"] = {
     "design_ref": "DESIGN.md §5 C10",
 }
 
+CLAIMED["C03"] = {
+    "text": "Decides three structural clauses: (a) error discipline -- in crate compiler every call result that carries a diagnostic (Result with "
+            "anyhow::Error / Vec<anyhow::Error> / pest errors) is propagated (`?`, returned, wrapped then propagated, collected) or replaced by another "
+            "Err; a result whose Err case is discarded (.ok(), is_ok(), `if let Ok`, unused) is a violation unless allow-listed with a reason "
+            "(8 intentional discards); (b) order -- code generation is reachable only across the success edge of validation, output writing only "
+            "after compilation succeeded, `run` executes only after compile succeeded, and the CLI's compile wrapper turns any error list into Err "
+            "(non-zero exit); (c) one guarded-by instance per typing rule the property names (19 instances: boolean conditions, annotated "
+            "initialiser, re-assignment type, unary/binary operator support, unknown name, field/method existence, callable member, index "
+            "support/type/output, loop bounds and step, known type name, break/continue in loop). Does not decide that the diagnostic names the "
+            "right source position.",
+    "technique": "static analysis: def-use of Err payloads, edge-dominators (must-pass-through) and guarded-by instances over rustc MIR",
+    "design_ref": "DESIGN.md §5 C03",
+}
+
 NOT_APPLICABLE = {
     "C01": "observable is program output; mechanism is relative jump offsets computed from Vec::len() arithmetic of recursively compiled blocks - deciding it needs symbolic execution of the generators (a different family); see DESIGN.md §5 C01",
     "C09": "a property of the compiler's *output* for all programs (jump targets, frame balance, operand-stack shape): needs symbolic block lengths or a verifier over emitted bytecode (translation validation), not an analysis of /repo's source; DESIGN.md §5 C09",
